@@ -9,7 +9,9 @@ Clauses -> checks (each a separate Check, so one red clause does not hide the ot
   no-exception, shown-once-in-order, hidden-only-permitted, fits-width, any-fills-line,
   space-breaks-at-spaces (+ the same clause restricted to breaks next to a double-width character),
   alignment-and-rendered-rows, clip-window, ellipsis-mark, rows-equals-lines, undisplayable-empty-line,
-  unencodable-str (texts whose characters the target encoding cannot represent; see the note there).
+  unencodable-str (texts whose characters the target encoding cannot represent; see the note there),
+  history-independent (+ /random): the clause "the row count reported for a width equals the number of lines rendered
+  at that width" over HISTORIES of calls on ONE widget -- see the section "histories" below.
 
 Oracle formulations (DESIGN.md, C03, corrected false alarms are heeded):
   * clip/ellipsis: the layout keeps the whole line, the cut happens when it is applied, so "fits" and
@@ -86,6 +88,7 @@ CLAUSES = {
     "ellipsis-mark": "ellipsis mode: a line that fits is shown aligned; otherwise the longest prefix that leaves room for the mark, then the mark (the encoding's ellipsis or dots)",
     "rows-equals-lines": "rows((w,)) before and after the render = len(render((w,)).text) = pack((w,))[1] = len(layout)",
     "undisplayable-empty-line": "wrapping modes, a character wider than the width: exactly one empty line, no error",
+    "history-independent": "one widget measured through a history -- rows / pack / render / get_line_translation at width w1, optionally set_text / set_wrap_mode / set_align_mode / set_layout, then rows / pack / render / get_line_translation at width w2, then once more at w2 -- answers every time exactly what a fresh widget with the current text and modes answers (whose row count = rendered lines is rows-equals-lines above)",
     "unencodable-str": "str texts with characters outside the target encoding: no exception, every row exactly `width` columns, rows = lines (auxiliary: the statement's 'characters shown' cannot hold for characters the terminal encoding lacks)",
 }
 
@@ -485,6 +488,216 @@ def _random_task(args):
     return tally
 
 
+# ------------------------------------------------------------------------------------------------
+# histories: one widget measured several times
+# ------------------------------------------------------------------------------------------------
+# The statement's "the row count reported for a width equals the number of lines rendered at that width" speaks about
+# a widget, not about a freshly constructed one: `Text` keeps the last layout it computed (`_cache_maxcol`,
+# `_cache_translation`) and rows() / pack() / render() / get_line_translation() share it.  A history is a list of steps
+# on ONE widget:
+#     ("rows" | "pack" | "render" | "layout", width)          a measurement
+#     ("set_text", classes) | ("set_wrap", mode) | ("set_align", mode) | ("set_layout", (align, wrap))   a mutation
+# Oracle: every measurement answers exactly what a FRESH widget with the current text / modes answers at that width
+# (the fresh widget's own answers are judged against the statement by the checks above, at the same widths).
+# Width 1 is always among the widths: with a double-width character the text cannot be displayed there and the
+# one-empty-line fallback is what gets cached.
+MEASURES = ("rows", "pack", "render", "layout")
+_FRESH_KEY = {"rows": "before", "pack": "pack", "render": "rows", "layout": "layout"}
+ALT_TEXTS = ("", "w", "ww", "nsn", "nlw", "wsww")  # set_text() targets (restricted to the configuration's classes)
+
+
+class Fresh:
+    """Memo of what a fresh widget answers: (classes, wrap, align, width) -> observe(...)."""
+
+    def __init__(self, cfg):
+        self.cfg = cfg
+        self.models = {}
+        self.memo = {}
+
+    def model(self, classes):
+        m = self.models.get(classes)
+        if m is None:
+            m = self.models[classes] = TextModel(classes, self.cfg[0], self.cfg[2], self.cfg[4])
+        return m
+
+    def __call__(self, classes, wrap, align, width):
+        k = (classes, wrap, align, width)
+        o = self.memo.get(k)
+        if o is None:
+            o = self.memo[k] = observe(self.model(classes), width, wrap, align)
+        return o
+
+
+def _measure(t, op, w):
+    if op == "rows":
+        return t.rows((w,))
+    if op == "pack":
+        return t.pack((w,))
+    if op == "render":
+        return list(t.render((w,)).text)
+    return [list(line) for line in t.get_line_translation(w)]
+
+
+def run_history(fresh, classes, wrap, align, steps):
+    """-> (ok, nontrivial, why, failing step index or None)"""
+    t = Text(fresh.model(classes).text, align=align, wrap=wrap)
+    cur = [classes, wrap, align]
+    for i, (op, arg) in enumerate(steps):
+        try:
+            if op == "set_text":
+                cur[0] = arg
+                t.set_text(fresh.model(arg).text)
+                continue
+            if op == "set_wrap":
+                cur[1] = arg
+                t.set_wrap_mode(arg)
+                continue
+            if op == "set_align":
+                cur[2] = arg
+                t.set_align_mode(arg)
+                continue
+            if op == "set_layout":
+                cur[2], cur[1] = arg
+                t.set_layout(arg[0], arg[1])
+                continue
+            ref = fresh(cur[0], cur[1], cur[2], arg)
+            if "exc" in ref:
+                return True, False, "", None  # the fresh widget itself raises: no-exception reports that
+            got = _measure(t, op, arg)
+        except Exception as e:  # noqa: BLE001
+            return False, True, f"step {i} {op}({arg!r}) raised {type(e).__name__}: {' '.join(str(e).split())[:100]}", i
+        want = ref[_FRESH_KEY[op]]
+        if op == "layout":
+            want = [list(line) for line in want]
+        if got != want:
+            return False, True, (f"step {i}: {op} at width {arg} answered {got!r} after {[list(x) for x in steps[:i]]!r}; a fresh widget with the same text "
+                                 f"({fresh.model(cur[0]).text!r}, wrap={cur[1]}, align={cur[2]}) answers {want!r} and renders {len(ref['rows'])} line(s)"), i
+    return True, True, "", None
+
+
+def hist_detail(cfg, fresh, classes, wrap, align, steps, why):
+    m = fresh.model(classes)
+    d = {"enc": cfg[0], "bytes": cfg[2], "classes": classes, "text": repr(m.text), "width": max([a for o, a in steps if o in MEASURES] or [0]), "wrap": wrap, "align": align,
+         "history": [[o, list(a) if isinstance(a, tuple) else a] for o, a in steps], "why": why, "clause": "history-independent"}
+    calls = []
+    for o, a in steps:
+        if o in ("rows", "pack"):
+            calls.append(f"t.{o}(({a},))")
+        elif o == "render":
+            calls.append(f"t.render(({a},)).text")
+        elif o == "layout":
+            calls.append(f"t.get_line_translation({a})")
+        elif o == "set_text":
+            calls.append(f"t.set_text({fresh.model(a).text!r})")
+        elif o == "set_wrap":
+            calls.append(f"t.set_wrap_mode({a!r})")
+        elif o == "set_align":
+            calls.append(f"t.set_align_mode({a!r})")
+        else:
+            calls.append(f"t.set_layout({a[0]!r}, {a[1]!r})")
+    d["repro"] = f"urwid.set_encoding({cfg[0]!r}); t = urwid.Text({m.text!r}, align={align!r}, wrap={wrap!r}); " + "; ".join(calls)
+    return d
+
+
+def _second_look(op):
+    """After the answer under test, the same width is asked once more through another entry point."""
+    return {"rows": "render", "render": "rows", "pack": "layout", "layout": "pack"}[op]
+
+
+def measure_histories(widths):
+    """(w1, op1), (w2, op2), (w2, the other entry point): op1 primes the cache through either route into
+    get_line_translation (without / with the `ta` argument), op2 is every measurement."""
+    for w1 in widths:
+        for op1 in ("rows", "render"):
+            for w2 in widths:
+                for op2 in ("rows", "pack", "render"):
+                    yield ((op1, w1), (op2, w2), (_second_look(op2), w2))
+
+
+def mutation_histories(classes, wrap, align, widths, alphabet, k):
+    """(w1, op1), one mutation, (w2, op2), (w2, the other entry point); w2 is w1 (the cached width: a missed
+    invalidation shows) or the next width; op1 rotates with k."""
+    alts = [x for x in ALT_TEXTS if x != classes and all(c in alphabet for c in x)]
+    muts = [("set_wrap", x) for x in WRAPS if x != wrap] + [("set_align", x) for x in ALIGNS if x != align] + [("set_text", x) for x in alts]
+    muts.append(("set_layout", (ALIGNS[(ALIGNS.index(align) + 1) % 3], WRAPS[(WRAPS.index(wrap) + 1) % 4])))
+    for wi, w1 in enumerate(widths):
+        for mi, mut in enumerate(muts):
+            op1 = MEASURES[(k + wi + mi) % 4]
+            for w2 in (w1, widths[(wi + 1) % len(widths)]):
+                for op2 in ("rows", "pack", "render"):
+                    yield ((op1, w1), mut, (op2, w2), (_second_look(op2), w2))
+
+
+def _hist_task(args):
+    """One shard of the history check: all texts of one config and length starting with `prefix`."""
+    ci, length, prefix, widths, with_measure, with_mutation = args
+    cfg = CONFIGS[ci]
+    enc, _mode, as_bytes, alphabet, _pool = cfg
+    tally = Tally()
+
+    def body():
+        fresh = Fresh(cfg)
+        k = 0
+        for classes in _texts(alphabet, length, prefix):
+            for wrap in WRAPS:
+                for align in ALIGNS:
+                    gens = []
+                    if with_measure:
+                        gens.append(measure_histories(widths))
+                    if with_mutation:
+                        gens.append(mutation_histories(classes, wrap, align, widths, alphabet, k))
+                    k += 1
+                    for steps in itertools.chain(*gens):
+                        ok, nontrivial, why, _i = run_history(fresh, classes, wrap, align, steps)
+                        tally.case(ok, lambda: hist_detail(cfg, fresh, classes, wrap, align, steps, why), nontrivial,  # noqa: B023
+                                   {"enc": enc, "bytes": as_bytes, "classes": classes, "wrap": wrap, "align": align, "history": [list(x) for x in steps]})
+            CanvasCache.clear()
+
+    _with_encoding(enc, body)
+    return tally
+
+
+def _random_hist_task(args):
+    """Seeded random longer histories: texts of length 2..maxlen, 3..6 steps, widths 1..maxw (width 1 in every history)."""
+    seed, shard, count, maxlen, maxw = args
+    r = rng(seed * 1000 + 500 + shard)
+    tally = Tally()
+    weights = {"n": 4, "s": 2, "l": 1, "w": 4, "z": 1}
+    for _ in range(count):
+        cfg = CONFIGS[r.randrange(len(CONFIGS))]
+        enc, _mode, as_bytes, alphabet, _pool = cfg
+
+        def text():
+            return "".join(r.choices(alphabet, [weights[c] for c in alphabet], k=r.randint(2, maxlen)))  # noqa: B023
+
+        classes, wrap, align = text(), r.choice(WRAPS), r.choice(ALIGNS)
+        steps = []
+        n = r.randint(3, 6)
+        one_at = r.randrange(n)
+        for i in range(n):
+            if i and r.random() < 0.35:
+                kind = r.choice(("set_text", "set_wrap", "set_align", "set_layout"))
+                arg = {"set_text": text, "set_wrap": lambda: r.choice(WRAPS), "set_align": lambda: r.choice(ALIGNS), "set_layout": lambda: (r.choice(ALIGNS), r.choice(WRAPS))}[kind]()
+                steps.append((kind, arg))
+            steps.append((r.choice(MEASURES), 1 if i == one_at else r.randint(1, maxw)))
+        steps = tuple(steps)
+
+        def body():
+            fresh = Fresh(cfg)  # noqa: B023
+            ok, nontrivial, why, _i = run_history(fresh, classes, wrap, align, steps)  # noqa: B023
+            tally.case(ok, lambda: hist_detail(cfg, fresh, classes, wrap, align, steps, why), nontrivial, {"enc": enc, "classes": classes, "wrap": wrap, "align": align, "history": [list(x) for x in steps]})  # noqa: B023
+
+        _with_encoding(enc, body)
+    return tally
+
+
+def _hist_bounds(tier):
+    """(widths, max text length of the measurement histories, of the mutation histories, random histories per shard)"""
+    if tier == "quick":
+        return (1, 2, 3, 4), 3, 2, 250
+    return (1, 2, 3, 4, 5, 6), 4, 3, 4000
+
+
 def _bounds(tier):
     # (max text length per alphabet size, max width, unencodable max length)
     if tier == "quick":
@@ -518,9 +731,23 @@ def run(tier="quick", seed=0):
     rtasks = []
     if tier != "quick":
         rtasks = [(seed, shard, 2500, 16, 12) for shard in range(16)]
+    # histories on one widget
+    hwidths, hlen_measure, hlen_mutation, hrandom = _hist_bounds(tier)
+    htasks = []
+    for ci, cfg in enumerate(CONFIGS):
+        for length in range(max(hlen_measure, hlen_mutation) + 1):
+            for prefix in itertools.product(cfg[3], repeat=min(length, 2)):
+                htasks.append((ci, length, "".join(prefix), hwidths, length <= hlen_measure, length <= hlen_mutation))
+    htasks.sort(key=lambda a: -a[1])
+    hrtasks = [(seed, shard, hrandom, 8, 6) for shard in range(16)]
     with ctx.Pool(procs) as pool:
-        parts = pool.map(_task, tasks, chunksize=1)
-        rparts = pool.map(_random_task, rtasks, chunksize=1) if rtasks else []
+        # (asynchronously, so that the short history shards fill the gaps between the long enumeration shards)
+        a_parts = pool.map_async(_task, tasks, chunksize=1)
+        a_hparts = pool.map_async(_hist_task, htasks, chunksize=1)
+        a_hrparts = pool.map_async(_random_hist_task, hrtasks, chunksize=1)
+        a_rparts = pool.map_async(_random_task, rtasks, chunksize=1) if rtasks else None
+        parts, hparts, hrparts = a_parts.get(), a_hparts.get(), a_hrparts.get()
+        rparts = a_rparts.get() if a_rparts else []
     # merge in the deterministic task order (sorted above; pool.map keeps it)
     total = {c: Tally() for c in CLAUSES}
     for part in parts:
@@ -531,17 +758,41 @@ def run(tier="quick", seed=0):
     bound = f"all texts by character class (n narrow, s space, l newline, w double-width, z zero-width): {lens}; width 1..{maxw}; wraps {'/'.join(WRAPS)}; aligns {'/'.join(ALIGNS)}; unencodable str length <= {unenc_len}{extra}"
     checks = []
     for c, rule in CLAUSES.items():
-        checks.append(MergedCheck(f"C03/{c}", rule, True, bound, total[c], wall).result())
+        if c != "history-independent":
+            checks.append(MergedCheck(f"C03/{c}", rule, True, bound, total[c], wall).result())
+    ht = Tally()
+    for t in hparts:
+        ht.merge(t)
+    hbound = (f"every configuration above; widths {{{','.join(map(str, hwidths))}}}; texts of length <= {hlen_measure}: (rows|render at w1), (rows|pack|render at w2), "
+              f"(another entry point at w2: render / get_line_translation / rows), all w1, w2; texts of length <= {hlen_mutation}: (a measurement at w1), one of set_wrap_mode (3) / set_align_mode (2) / set_text (<= {len(ALT_TEXTS)} texts) / set_layout, "
+              f"(rows|pack|render at w2 in {{w1, next width}}), (another entry point at w2); every wrap x alignment")
+    checks.append(MergedCheck("C03/history-independent", CLAUSES["history-independent"], True, hbound, ht, wall).result())
+    hrt = Tally()
+    for t in hrparts:
+        hrt.merge(t)
+    checks.append(MergedCheck("C03/history-independent/random", "the same on seeded random histories: 3..6 measurements (one of them at width 1) with set_text / set_wrap_mode / set_align_mode / set_layout in between (p = 0.35 each gap)", False,
+                              f"{16 * hrandom} random (configuration, text of length 2..8, history) cases at widths 1..6, seeded", hrt, wall).result())
     if rtasks:
         rt = Tally()
         for t in rparts:
             rt.merge(t)
         checks.append(MergedCheck("C03/random-long-texts", "all clauses above on seeded random texts of length 8..16 at widths 1..12 (failure detail names the clause)", False, "40000 random (config, text, width, wrap, align) cases, seeded", rt, wall).result())
-    return {"checks": checks, "bound": bound}
+    return {"checks": checks, "bound": bound + "; histories on one widget: " + hbound}
 
 
 def replay(check_name, case):
     clause = case.get("clause") or check_name.split("/", 1)[1]
+    if clause.startswith("history-independent"):
+        cfg = next(c for c in CONFIGS if c[0] == case["enc"] and c[2] == case["bytes"])
+        steps = tuple((o, tuple(a) if isinstance(a, list) else a) for o, a in case["history"])
+
+        def hbody():
+            fresh = Fresh(cfg)
+            ok, _nt, why, _i = run_history(fresh, case["classes"], case["wrap"], case["align"], steps)
+            return ok, hist_detail(cfg, fresh, case["classes"], case["wrap"], case["align"], steps, why)
+
+        ok, d = _with_encoding(cfg[0], hbody)
+        return {"outcome": "not-reproduced" if ok else "confirmed", "detail": d}
     table = UNENCODABLE if clause == "unencodable-str" else CONFIGS
     cfg = next(c for c in table if c[0] == case["enc"] and c[2] == case["bytes"])
     enc, mode, as_bytes, _alphabet, pool = cfg
